@@ -18,8 +18,22 @@ SRC = os.path.join(REPO, "crates", "wac-parser", "src", "lexer.rs")
 OUT = os.path.join(os.path.dirname(os.path.abspath(__file__)), "..", "..", "coq", "theories", "gen", "LexTables.v")
 
 
+SNAPSHOT = os.path.join(os.path.dirname(os.path.abspath(__file__)), "LexTables.v.snapshot")
+
+
 def die(msg):
+    """Broken tie. The check still has to run (correspondence + property predicate) so that a failing input is
+    found: fall back to the last good tables -- the pristine snapshot committed next to this script."""
     sys.stderr.write("gen_lexer_tables: " + msg + "\n")
+    out = os.path.normpath(OUT)
+    try:
+        snap = open(SNAPSHOT).read()
+        os.makedirs(os.path.dirname(out), exist_ok=True)
+        if not os.path.exists(out) or open(out).read() != snap:
+            open(out, "w").write(snap)
+        sys.stderr.write("gen_lexer_tables: fell back to the pristine snapshot of the tables (%s)\n" % SNAPSHOT)
+    except OSError as e:
+        sys.stderr.write("gen_lexer_tables: no snapshot to fall back to: %s\n" % e)
     sys.exit(1)
 
 
@@ -195,6 +209,8 @@ def parse_screen(src):
             out.append(("wild",))
         elif re.fullmatch(r"ch\s+if\s+ch\.is_control\(\)", pat):
             out.append(("control", reject_kind(block, pat)))
+        elif re.fullmatch(r"ch\s+if\s+ch\.is_ascii_control\(\)", pat):
+            out.append(("asciicontrol", reject_kind(block, pat)))
         else:
             lits = [x.strip() for x in pat.split("|")]
             cs = []
@@ -267,6 +283,8 @@ def main():
             a.append("  ArmWild")
         elif arm[0] == "control":
             a.append("  ArmControl %s" % arm[1])
+        elif arm[0] == "asciicontrol":
+            a.append("  ArmAsciiControl %s" % arm[1])
         elif arm[0] == "allow":
             a.append("  ArmAllow %s" % coq_ns(arm[1]))
         else:
